@@ -1293,32 +1293,65 @@ class AffineGen:
 
 class SymrefGen:
     """func whose body uses symref.declare/update/fetch (always written before read), i32 arithmetic,
-    external calls; optionally symbol uses nested in scf.if / scf.for regions (then also symbols without a
-    declaration in the program)."""
+    external calls; optionally symbol uses nested in scf.if / scf.for regions down to `max_depth` region
+    levels below the function body (then also symbols without a declaration in the program, and symbols
+    declared inside a nested block — visible in that block and below it only)."""
 
-    def __init__(self, rng: Any, nested: bool):
+    def __init__(self, rng: Any, nested: bool, max_depth: int = 4):
         self.rng = rng
         self.nested = nested
+        self.max_depth = max_depth if nested else 0
         self.n = 0
+        self.nsym = 0
+        self.deepest = 0     # deepest region level (below the function body) at which a symbol is touched
+        self.span = 0        # largest distance between the declaring block and a use of the symbol
 
     def fresh(self, p: str = "v") -> str:
         self.n += 1
         return f"%{p}{self.n}"
 
-    def stmt(self, syms: list[str], pool: list[str], lines: list[str], ind: str, depth: int, conds: list[str]) -> None:
+    def touch(self, syms: list[tuple[str, int]], depth: int) -> str:
+        """pick a visible symbol; symbols of outer blocks are preferred in nested blocks"""
+        r = self.rng
+        outer = [s for s in syms if s[1] < depth]
+        name, lvl = r.choice(outer) if outer and r.random() < 0.7 else r.choice(syms)
+        self.deepest = max(self.deepest, depth)
+        if lvl >= 0:
+            self.span = max(self.span, depth - lvl)
+        return name
+
+    def block(self, syms: list[tuple[str, int]], pool: list[str], lines: list[str], ind: str, depth: int, conds: list[str]) -> None:
+        """body of a nested region: own scope for values and for symbols declared in it; a block that will
+        hold a further region is often otherwise quiet (no direct use of any symbol)"""
+        r = self.rng
+        p2, s2 = list(pool), list(syms)
+        n = r.randint(1, 3) if depth < 3 else r.randint(1, 2)
+        if depth < self.max_depth and r.random() < 0.45:
+            # a pure carrier level: only the nested operation (and maybe arithmetic / a call)
+            for _ in range(r.randint(0, 1)):
+                self.stmt(s2, p2, lines, ind, depth, conds, only=["arith", "ext"])
+            self.stmt(s2, p2, lines, ind, depth, conds, only=["if", "for"])
+            if r.random() < 0.3:
+                self.stmt(s2, p2, lines, ind, depth, conds, only=["fetch", "update", "ext"])
+            return
+        for _ in range(n):
+            self.stmt(s2, p2, lines, ind, depth, conds)
+
+    def stmt(self, syms: list[tuple[str, int]], pool: list[str], lines: list[str], ind: str, depth: int, conds: list[str],
+             only: list[str] | None = None) -> None:
         r = self.rng
         kinds = ["fetch"] * 3 + ["update"] * 3 + ["arith"] * 2 + ["ext"] * 2
-        if depth == 0:
+        if depth == 0 or (self.nested and r.random() < 0.5):
             kinds += ["declare"]
-        if self.nested and depth < 2:
-            kinds += ["if", "for"]
-        k = r.choice(kinds)
+        if depth < self.max_depth:
+            kinds += ["if", "for"] * (1 if depth < 2 else 2)
+        k = r.choice(only if only is not None else kinds)
         if k == "fetch":
             v = self.fresh()
-            lines.append(f"{ind}{v} = symref.fetch @{r.choice(syms)} : i32")
+            lines.append(f"{ind}{v} = symref.fetch @{self.touch(syms, depth)} : i32")
             pool.append(v)
         elif k == "update":
-            lines.append(f"{ind}symref.update @{r.choice(syms)} = {r.choice(pool)} : i32")
+            lines.append(f"{ind}symref.update @{self.touch(syms, depth)} = {r.choice(pool)} : i32")
         elif k == "arith":
             v = self.fresh()
             lines.append(f"{ind}{v} = arith.{r.choice(['addi', 'muli', 'subi', 'xori'])} {r.choice(pool)}, {r.choice(pool)} : i32")
@@ -1326,35 +1359,33 @@ class SymrefGen:
         elif k == "ext":
             lines.append(f"{ind}func.call @ext_i32({r.choice(pool)}) : (i32) -> ()")
         elif k == "declare":
-            s = f"s{len(syms)}"
+            s = f"s{self.nsym}"
+            self.nsym += 1
             lines.append(f'{ind}symref.declare "{s}"')
             lines.append(f"{ind}symref.update @{s} = {r.choice(pool)} : i32")
-            syms.append(s)
+            syms.append((s, depth))
         elif k == "if":
             lines.append(f"{ind}scf.if {r.choice(conds)} {{")
-            p2 = list(pool)
-            for _ in range(r.randint(1, 3)):
-                self.stmt(syms, p2, lines, ind + "  ", depth + 1, conds)
-            if r.random() < 0.5:
+            form = r.choice(["then", "then", "then_else", "then_else", "empty_else", "else_only"])
+            if form != "else_only":
+                self.block(syms, pool, lines, ind + "  ", depth + 1, conds)
+            if form != "then":
                 lines.append(ind + "} else {")
-                p2 = list(pool)
-                for _ in range(r.randint(1, 3)):
-                    self.stmt(syms, p2, lines, ind + "  ", depth + 1, conds)
+                if form != "empty_else":
+                    self.block(syms, pool, lines, ind + "  ", depth + 1, conds)
             lines.append(ind + "}")
         elif k == "for":
             lb, ub, st = self.fresh("c"), self.fresh("c"), self.fresh("c")
             lines.append(f"{ind}{lb} = arith.constant 0 : index")
-            lines.append(f"{ind}{ub} = arith.constant {r.choice([0, 1, 3])} : index")
+            lines.append(f"{ind}{ub} = arith.constant {r.choice([0, 1, 2, 3] if depth < 2 else [0, 1, 2])} : index")
             lines.append(f"{ind}{st} = arith.constant 1 : index")
             lines.append(f"{ind}scf.for {self.fresh('i')} = {lb} to {ub} step {st} {{")
-            p2 = list(pool)
-            for _ in range(r.randint(1, 3)):
-                self.stmt(syms, p2, lines, ind + "  ", depth + 1, conds)
+            self.block(syms, pool, lines, ind + "  ", depth + 1, conds)
             lines.append(ind + "}")
 
     def program(self) -> dict[str, Any]:
         r = self.rng
-        self.n = 0
+        self.n = self.nsym = self.deepest = self.span = 0
         nargs = r.randint(1, 3)
         arg_tys = ["i32"] * nargs + ["i1"]
         args = [f"%a{i}" for i in range(nargs + 1)]
@@ -1364,20 +1395,22 @@ class SymrefGen:
         c = self.fresh("c")
         lines.append(f"  {c} = arith.constant {r.choice([0, 1, 7, -5])} : i32")
         pool.append(c)
-        syms: list[str] = []
+        syms: list[tuple[str, int]] = []
         # nested variant: sometimes the symbols are declared by an enclosing scope that is not part of the
         # program (as in tests/filecheck/transforms/desymref.mlir): the pass then only forwards within blocks
         undeclared = self.nested and r.random() < 0.4
         for _ in range(r.randint(1, 2)):
-            s = f"s{len(syms)}"
+            s = f"s{self.nsym}"
+            self.nsym += 1
             if not undeclared:
                 lines.append(f'  symref.declare "{s}"')
             lines.append(f"  symref.update @{s} = {r.choice(pool)} : i32")
-            syms.append(s)
-        for _ in range(r.randint(2, 10)):
+            syms.append((s, -1 if undeclared else 0))
+        top = list(syms)
+        for _ in range(r.randint(2, 10) if not self.nested else r.randint(2, 7)):
             self.stmt(syms, pool, lines, "  ", 0, conds)
         rets = []
-        for s in syms[: r.randint(1, len(syms))]:
+        for s, _ in top[: r.randint(1, len(top))]:
             v = self.fresh()
             lines.append(f"  {v} = symref.fetch @{s} : i32")
             rets.append(v)
@@ -1387,4 +1420,94 @@ class SymrefGen:
         text = ("builtin.module {\nfunc.func @main(" + sig + ") -> (" + ", ".join(["i32"] * len(rets)) + ") {\n" + "\n".join(lines)
                 + "\n  func.return " + ", ".join(rets) + " : " + ", ".join(["i32"] * len(rets)) + "\n}\n"
                 + "func.func private @ext_i32(i32) -> ()\n}\n")
-        return {"text": text, "arg_types": arg_tys, "ret_types": ["i32"] * len(rets)}
+        return {"text": text, "arg_types": arg_tys, "ret_types": ["i32"] * len(rets),
+                "sym_depth": self.deepest, "sym_span": self.span, "sym_declared": not undeclared}
+
+
+# -- systematic family: one symbol, touched `d` region levels below the block that declares it ---------------
+
+SYM_WRAPPERS = ("if_then", "if_else", "if_noelse", "for")   # region operation kinds of a carrier level
+SYM_ACCESS = ("w", "r", "rw")                                # what the innermost block does with the symbol
+SYM_AFTER = ("r", "wr", "none")                              # what the declaring block does after the nest
+SYM_DECL = ("body", "inner", "undeclared")                   # declaration in the function body / in a nested block / none
+
+
+def symref_depth_cases(max_d: int) -> list[tuple[tuple[str, ...], str, str, str, bool]]:
+    """every (carrier chain of length ≤ max_d, access, after, declaration, intermediate level also touches)"""
+    import itertools
+
+    out = []
+    for d in range(max_d + 1):
+        for chain in itertools.product(SYM_WRAPPERS, repeat=d):
+            for acc in SYM_ACCESS:
+                for aft in SYM_AFTER:
+                    for decl in SYM_DECL:
+                        for mid in ((False, True) if d >= 2 else (False,)):
+                            out.append((chain, acc, aft, decl, mid))
+    return out
+
+
+def symref_depth_program(chain: tuple[str, ...], acc: str, aft: str, decl: str, mid: bool, trip: int = 2) -> dict[str, Any]:
+    """A symbol `a` is (declared and) written in one block, touched again inside `chain` (carrier region
+    operations, outermost first) and read / overwritten afterwards in the first block; everything the
+    symbol ever holds that the program reads reaches an external call (and the result when the
+    declaring block is the function body)."""
+    L: list[str] = []
+    ind = "  "
+    L += [f"{ind}%k = arith.constant 40 : i32", f"{ind}%lb = arith.constant 0 : index",
+          f"{ind}%ub = arith.constant {trip} : index", f"{ind}%st = arith.constant 1 : index"]
+    closers: list[str] = []
+    if decl == "inner":
+        # the declaring block is itself the body of a loop of the function
+        L.append(f"{ind}scf.for %o = %lb to %ub step %st {{")
+        closers.append(ind + "}")
+        ind += "  "
+    if decl != "undeclared":
+        L.append(f'{ind}symref.declare "a"')
+    L.append(f"{ind}symref.update @a = %x : i32")
+    base = ind
+    inner_close: list[str] = []
+    for lvl, w in enumerate(chain):
+        if w == "for":
+            L.append(f"{ind}scf.for %i{lvl} = %lb to %ub step %st {{")
+            inner_close.append(ind + "}")
+        elif w == "if_else":
+            L.append(f"{ind}scf.if %c {{")
+            L.append(f"{ind}}} else {{")
+            inner_close.append(ind + "}")
+        elif w == "if_then":
+            L.append(f"{ind}scf.if %c {{")
+            inner_close.append(ind + "} else {\n" + ind + "}")
+        else:
+            L.append(f"{ind}scf.if %c {{")
+            inner_close.append(ind + "}")
+        ind += "  "
+        if mid and lvl == 0 and len(chain) >= 2:
+            L.append(f"{ind}%m = symref.fetch @a : i32")
+            L.append(f"{ind}func.call @ext_i32(%m) : (i32) -> ()")
+    if acc == "w":
+        L.append(f"{ind}symref.update @a = %k : i32")
+    elif acc == "r":
+        L.append(f"{ind}%v = symref.fetch @a : i32")
+        L.append(f"{ind}func.call @ext_i32(%v) : (i32) -> ()")
+    else:
+        L.append(f"{ind}%v = symref.fetch @a : i32")
+        L.append(f"{ind}%w = arith.addi %v, %k : i32")
+        L.append(f"{ind}symref.update @a = %w : i32")
+    for cl in reversed(inner_close):
+        L += cl.split("\n")
+    ind = base
+    ret = "%x"
+    if aft == "wr":
+        L.append(f"{ind}symref.update @a = %y : i32")
+    if aft in ("r", "wr"):
+        L.append(f"{ind}%r = symref.fetch @a : i32")
+        L.append(f"{ind}func.call @ext_i32(%r) : (i32) -> ()")
+        if decl != "inner":
+            ret = "%r"
+    L += reversed(closers)
+    text = ("builtin.module {\nfunc.func @main(%x: i32, %y: i32, %c: i1) -> (i32) {\n" + "\n".join(L)
+            + f"\n  func.return {ret} : i32\n}}\nfunc.func private @ext_i32(i32) -> ()\n}}\n")
+    return {"text": text, "arg_types": ["i32", "i32", "i1"], "ret_types": ["i32"],
+            "vecs": [[7, 11, -1], [7, 11, 0], [-3, 5, -1]],
+            "sym_depth": len(chain) + (1 if decl == "inner" else 0), "sym_span": len(chain), "sym_declared": decl != "undeclared"}
